@@ -35,13 +35,16 @@ pub fn untag(d: &[u8]) -> (u64, u64, u64, bool) {
     (s, q, l, ok)
 }
 
-fn send_all(tx: &OsIpcSender, case: u64, sender: u64, lens: &[usize]) -> Vec<(u64, u64, u64, u64, bool)> {
+fn send_all(tx: &OsIpcSender, case: u64, sender: u64, lens: &[usize], pat: &str) -> Vec<(u64, u64, u64, u64, bool)> {
     let mut stamps = Vec::new();
     for (seq, &len) in lens.iter().enumerate() {
         let data = tagged(sender, seq as u64, len);
         let t0 = now_ns();
         mark(&format!("send {}.{}.{}", case, sender, seq));
+        // transient refusals (ENOBUFS) of this sender's transmission attempts, the same pattern for each of its sends
+        faults(pat);
         let r = tx.send(&data, vec![], vec![]);
+        faults("");
         mark(&format!("endsend {}.{}.{}", case, sender, seq));
         let t1 = now_ns();
         stamps.push((sender, seq as u64, t0, t1, r.is_ok()));
@@ -84,17 +87,18 @@ pub fn run() {
             let txc = tx.clone();
             let lens = lens.clone();
             let stxc = stx.clone();
+            let pat = a.get("faults").cloned().unwrap_or_default();
             if procs {
                 let pid = unsafe { libc::fork() };
                 if pid == 0 {
-                    let st = send_all(&txc, id, i as u64, &lens);
+                    let st = send_all(&txc, id, i as u64, &lens, &pat);
                     let _ = stxc.send(st);
                     unsafe { libc::_exit(0) };
                 }
                 pids.push(pid);
             } else {
                 handles.push(std::thread::spawn(move || {
-                    let st = send_all(&txc, id, i as u64, &lens);
+                    let st = send_all(&txc, id, i as u64, &lens, &pat);
                     let _ = stxc.send(st);
                 }));
             }
